@@ -2,6 +2,7 @@ package include
 
 import (
 	"errors"
+	"fmt"
 	"os"
 	"path/filepath"
 	"strings"
@@ -61,4 +62,24 @@ func IsGlobPattern(path string) bool {
 
 func ConvertHledgerGlob(pattern string) string {
 	return strings.ReplaceAll(pattern, "<->", "**")
+}
+
+// Expanding a pattern costs time that grows with the number of its brace
+// groups (every combination of alternatives is tried) and of its "**"
+// segments (each may match any depth): a line of a few hundred bytes could
+// keep every analysis busy for minutes. Real include patterns have one or two
+// of either.
+const (
+	maxGlobBraceGroups   = 4
+	maxGlobDoubleStars   = 3
+	globTooComplexFormat = "include pattern too complex (more than %d brace groups or %d \"**\" segments): %s"
+)
+
+// CheckGlobComplexity refuses patterns that are too expensive to expand.
+func CheckGlobComplexity(pattern string) error {
+	pattern = ConvertHledgerGlob(pattern)
+	if strings.Count(pattern, "{") > maxGlobBraceGroups || strings.Count(pattern, "**") > maxGlobDoubleStars {
+		return fmt.Errorf(globTooComplexFormat, maxGlobBraceGroups, maxGlobDoubleStars, pattern)
+	}
+	return nil
 }
